@@ -65,6 +65,11 @@ func (fx *FnExec) Run() (obls []*Obligation, err error) {
 				fx.outside = append(fx.outside, fmt.Sprintf("contract has invariants for loop %d but the function has %d loop(s): the clause would not be checked", k, len(fx.loopHead)))
 			}
 		}
+		for k := range fx.C.LoopStep {
+			if k > len(fx.loopHead) {
+				fx.outside = append(fx.outside, fmt.Sprintf("contract has step clauses for loop %d but the function has %d loop(s): the clause would not be checked", k, len(fx.loopHead)))
+			}
+		}
 		for k := range fx.C.LoopDec {
 			if k > len(fx.loopHead) {
 				fx.outside = append(fx.outside, fmt.Sprintf("contract has a decreases clause for loop %d but the function has %d loop(s)", k, len(fx.loopHead)))
@@ -619,6 +624,23 @@ func (fx *FnExec) enterLoop(b *ssa.BasicBlock, li *loopInfo, st *blockState) {
 			fx.assume(t)
 		}
 	}
+	// snapshots: ghost locals that keep the value an expression has at the head of this iteration
+	if fx.C != nil {
+		for _, sn := range fx.C.LoopSnap[li.ordinal] {
+			v, err := fx.evalC(sn.Expr.ast, &evalEnv{fx: fx, heap: st.heap, oldHeap: fx.heap0, loop: b, gh: st.gh, oldGh: fx.entryGh})
+			if err != nil {
+				fx.outside = append(fx.outside, fmt.Sprintf("loop %d snapshot %s: %v", li.ordinal, sn.Name, err))
+				continue
+			}
+			if fx.snaps == nil {
+				fx.snaps = map[string]cval{}
+			}
+			if v.S != "" {
+				v.S = fx.define(fmt.Sprintf("snap_%s_l%d", sanitize(sn.Name), li.ordinal), v.Sort, v.S)
+			}
+			fx.snaps[sn.Name] = v
+		}
+	}
 	// decreases: remember the measure at the head
 	if d := fx.loopDecreases(li); d != nil {
 		t, err := fx.evalContract(d, &evalEnv{fx: fx, heap: st.heap, oldHeap: fx.heap0, loop: b})
@@ -699,7 +721,11 @@ func (fx *FnExec) closeBackEdge(p, head *ssa.BasicBlock, cond string) {
 	li := fx.loopHead[head.Index]
 	invs := fx.loopInvariants(li)
 	dec := fx.loopDecreases(li)
-	if len(invs) == 0 && dec == nil {
+	var steps []*CExpr
+	if fx.C != nil {
+		steps = fx.C.LoopStep[li.ordinal]
+	}
+	if len(invs) == 0 && dec == nil && len(steps) == 0 {
 		return
 	}
 	// evaluate with phis bound to the values flowing along this edge
@@ -734,6 +760,15 @@ func (fx *FnExec) closeBackEdge(p, head *ssa.BasicBlock, cond string) {
 		}
 		o := fx.oblige("inv-pres", t, lastInstr(p), fmt.Sprintf("loop %d invariant #%d preserved: %s", li.ordinal, k+1, inv.Text))
 		o.Props = inv.Props
+	}
+	for k, st := range steps {
+		t, err := fx.evalContract(st, &evalEnv{fx: fx, heap: fx.cur.heap, oldHeap: fx.heap0, loop: head, at: p})
+		if err != nil {
+			fx.outside = append(fx.outside, fmt.Sprintf("loop %d step #%d: %v", li.ordinal, k+1, err))
+			continue
+		}
+		o := fx.oblige("step", t, lastInstr(p), fmt.Sprintf("loop %d step #%d (one iteration, from its head to here): %s", li.ordinal, k+1, st.Text))
+		o.Props = st.Props
 	}
 	if dec != nil && li.hasDec {
 		t, err := fx.evalContract(dec, &evalEnv{fx: fx, heap: fx.cur.heap, oldHeap: fx.heap0, loop: head})
@@ -1851,6 +1886,9 @@ func (fx *FnExec) execReturn(x *ssa.Return) {
 	if fx.C != nil && !fx.C.Assumed {
 		envg := &evalEnv{fx: fx, heap: fx.cur.heap, oldHeap: fx.heap0, rets: vals}
 		for _, gname := range sortedKeys(fx.C.GhostSet) {
+			if fx.C.GhostAssign[gname] {
+				continue // ghost code: the function itself assigns the ghost as it returns
+			}
 			if g := fx.W.Contracts.ghost(gname); g != nil {
 				gs := fx.C.GhostSet[gname]
 				t, err := fx.evalC(gs.ast, envg)
